@@ -334,6 +334,25 @@ Proof.
   specialize (Hs k Hin). apply Z.eqb_eq. exact Hs.
 Qed.
 
+(** the time axis as repaired: stamp of sample k is k / fs (correctly rounded quotient) *)
+Lemma offset_repaired_sweep_div :
+  forallb (fun fs =>
+    forallb (fun k => Z.eqb (offset_repaired fs (FloatBase.Z2F (Z.of_nat k) / fs)%float) (Z.of_nat k))
+            (seq 0 2000))
+    [50; 64; 100; 128; 200; 250; 500; 1000; 30]%float = true.
+Proof. vm_compute. reflexivity. Qed.
+
+Theorem offset_repaired_grid_div (fs : PrimFloat.float) (k : nat) :
+  In fs [50; 64; 100; 128; 200; 250; 500; 1000; 30]%float -> k < 2000 ->
+  offset_repaired fs (FloatBase.Z2F (Z.of_nat k) / fs)%float = Z.of_nat k.
+Proof.
+  intros Hfs Hk. pose proof offset_repaired_sweep_div as Hs.
+  rewrite forallb_forall in Hs. specialize (Hs fs Hfs).
+  rewrite forallb_forall in Hs.
+  assert (Hin : In k (seq 0 2000)) by (apply in_seq; split; [apply Nat.le_0_l|exact Hk]).
+  specialize (Hs k Hin). apply Z.eqb_eq. exact Hs.
+Qed.
+
 Corollary offset_repaired_grid_Z (fs : PrimFloat.float) (k : Z) :
   In fs grid_fs -> (0 <= k < 2000)%Z ->
   offset_repaired fs (FloatBase.Z2F k * (1 / fs))%float = k.
